@@ -59,3 +59,93 @@ def window(draw, min_days=3, max_days=75, start_tods=((0, 0, 0), (14, 30, 0))):
     d1 = d0 + D.timedelta(days=n)
     tod = draw(st.sampled_from(list(start_tods)))
     return d0, d1, [d0.year, d0.month, d0.day] + list(tod), [d1.year, d1.month, d1.day, 23, 59, 0]
+
+
+def instants(sched, start, end):
+    """Rebalance instants of a schedule dict, from the independent calendar (as [y,m,d,h,mi,s] lists)."""
+    d0, d1 = cal.date3(start), cal.date3(end)
+    kind = sched['rebalance']
+    if kind == 'buy_and_hold':
+        d = d0
+        while d.weekday() > 4:
+            d += D.timedelta(days=1)
+        return [[d.year, d.month, d.day] + list(start[3:])] if d <= d1 else []
+    wd = cal.WEEKDAYS.index(sched['weekday'].upper()) if kind == 'weekly' else None
+    return [[d.year, d.month, d.day, 21, 0, 0] for d in cal.schedule_dates(kind, d0, d1, wd)]
+
+
+def _shift(v, minutes=0, days=0):
+    t = cal.ts6(v) + D.timedelta(minutes=minutes, days=days)
+    return [t.year, t.month, t.day, t.hour, t.minute, t.second]
+
+
+@st.composite
+def moment(draw, start, end, inst, kinds):
+    """A burn-in / entry instant of a labelled class; returns (label, value-or-None)."""
+    k = draw(st.sampled_from(kinds))
+    if k in ('on', 'after1m') and not inst:
+        k = 'mid'
+    if k == 'none':
+        return k, None
+    if k == 'before':
+        return k, _shift(start, days=-draw(st.integers(0, 5)))
+    if k == 'start':
+        return k, list(start)
+    if k == 'on':
+        return k, list(draw(st.sampled_from(inst)))
+    if k == 'after1m':
+        return k, _shift(draw(st.sampled_from(inst)), minutes=1)
+    if k == 'after_end':
+        return k, _shift(end, days=draw(st.integers(1, 3)))
+    n = (cal.date3(end) - cal.date3(start)).days
+    d = cal.date3(start) + D.timedelta(days=draw(st.integers(0, max(n, 0))))
+    tod = draw(st.sampled_from([(0, 0, 0), (14, 30, 0), (21, 0, 0), (22, 15, 0), (9, 0, 0)]))
+    return 'mid', [d.year, d.month, d.day] + list(tod)
+
+
+@st.composite
+def alpha_cfg(draw, kinds, assets, long_only):
+    k = draw(st.sampled_from(kinds))
+    if k == 'fixed':
+        keys = [a for a in assets if draw(st.sampled_from([True, True, True, False]))]
+        return {'kind': 'fixed', 'weights': {a: weight_value(draw, long_only) for a in keys}}
+    if k == 'single':
+        s = draw(st.sampled_from([1.0, 1.0, 0.5, 2.0]))
+        return {'kind': 'single', 'signal': s if long_only or draw(st.booleans()) else -s}
+    if k == 'topn':
+        return {'kind': 'topn', 'lookback': draw(st.integers(1, 5)), 'top': draw(st.integers(1, 3))}
+    if k == 'sma':
+        fast = draw(st.integers(1, 4))
+        return {'kind': 'sma', 'fast': fast, 'slow': fast + draw(st.integers(1, 5))}
+    return {'kind': 'invvol', 'lookback': draw(st.integers(2, 6))}
+
+
+@st.composite
+def full_config(draw, names, start, end, alpha_kinds=('fixed', 'single', 'topn', 'sma', 'invvol'),
+                dynamic=True, burn=True, sched=None, entry_kinds=('before', 'before', 'start', 'start', 'on', 'on', 'after1m', 'after1m', 'mid', 'mid', 'after_end', 'none'),
+                burn_kinds=('on', 'after1m', 'mid', 'none', 'on', 'after1m', 'mid', 'none', 'before', 'after_end', 'none')):
+    assets = ['EQ:' + n for n in names]
+    sched = sched or draw(schedule(allow_bah=tuple(start[3:]) == (14, 30, 0)))
+    siz = draw(sizing())
+    inst = instants(sched, start, end)
+    cfg = {'start': start, 'end': end, 'fee': draw(fee_st), 'cash': draw(cash_st), 'burn_in': None,
+           'adjust': draw(st.sampled_from([True, True, False]))}
+    cfg.update(sched)
+    cfg.update(siz)
+    labels = []
+    if dynamic and draw(st.booleans()):
+        dates = {}
+        same = draw(moment(start, end, inst, entry_kinds))
+        for a in assets:
+            lab, v = same if draw(st.sampled_from([False, False, True])) else draw(moment(start, end, inst, entry_kinds))
+            dates[a] = v
+            labels.append('entry_' + lab)
+        cfg['universe'] = {'kind': 'dynamic', 'dates': dates}
+    else:
+        cfg['universe'] = {'kind': 'static', 'assets': assets}
+    if burn:
+        lab, v = draw(moment(start, end, inst, burn_kinds))
+        cfg['burn_in'] = v
+        labels.append('burn_' + lab)
+    cfg['alpha'] = draw(alpha_cfg(list(alpha_kinds), assets, siz['long_only']))
+    return cfg, sorted(set(labels))
